@@ -405,16 +405,26 @@ def rule_adapt(prog, rep):
         return
     kw = dict(w[3])
     cond, body, init = kw.get("cond_fun"), kw.get("body_fun"), kw.get("init_val")
-    if not (cond and body and init and cond[0] == "lam" and body[0] == "lam" and body[2][0] == "call"):
+    # a module-level NamedTuple state is evaluated as the tuple-state loop (engine normal form): read it back by field
+    tuple_fields = None
+    if cond and body and init and cond[0] == "lam" and body[0] == "lam" and body[2][0] == "tuple" and init[0] == "tuple":
+        for q_, fields_ in getattr(it, "record_whiles", []):
+            if len(fields_) == len(init[1]):
+                tuple_fields = list(fields_)
+    if not (cond and body and init and cond[0] == "lam" and body[0] == "lam" and (body[2][0] == "call" or tuple_fields)):
         rep.undecided("C10.adapt", site, "adapt:while", "while_loop arguments not recognised")
         return
     sc, sb = ("bv", lam_level(cond), 0), ("bv", lam_level(body), 0)
 
     def fld(s, n):
+        if tuple_fields is not None:
+            if s[0] == "call" and s[1] == WHILE:
+                return proj(s, tuple_fields.index(n))
+            return ("sub", s, C(tuple_fields.index(n)))
         return ("attr", s, n)
     rep.check(equal(cond[2], mk_cmp("==", fld(sc, "lower_fn_sign"), fld(sc, "upper_fn_sign"))), "C10.adapt", site,
               "adapt:continue-iff-signs-equal", show(cond[2], 100), f"loop condition is {show(cond[2], 160)}")
-    new = dict(body[2][3])
+    new = dict(body[2][3]) if tuple_fields is None else dict(zip(tuple_fields, body[2][1]))
     need = ("lower", "upper", "expand_by", "lower_fn_sign", "upper_fn_sign")
     if any(n not in new for n in need):
         rep.undecided("C10.adapt", site, "adapt:state", f"state fields {sorted(new)}")
@@ -448,7 +458,7 @@ def rule_adapt(prog, rep):
     rep.check(isinstance(d, (int, float)) and d > 1, "C10.adapt", site, "adapt:expand_factor>1",
               f"default expand_factor {d}", f"default expand_factor is {d}, must exceed 1")
     # initial state
-    iv = dict(init[3]) if init[0] == "call" else {}
+    iv = dict(init[3]) if init[0] == "call" else (dict(zip(tuple_fields, init[1])) if tuple_fields is not None else {})
 
     def arr(x):
         return ("call", ("ext", "jax.numpy.asarray"), (x, ("ext", "builtins.float")), ())
@@ -489,9 +499,8 @@ def rule_adapt(prog, rep):
             rep.undecided("C10.adapt", site, f"adapt:{nm}-is-floating", f"cannot tell whether {show(tm, 120)} is floating")
     # exact hits collapse the bracket
     rl, ru = proj(t, 0), proj(t, 1)
-    fs = ("attr", w, "lower")
-    lo_f, up_f = ("attr", w, "lower"), ("attr", w, "upper")
-    sl, su = ("attr", w, "lower_fn_sign"), ("attr", w, "upper_fn_sign")
+    lo_f, up_f = fld(w, "lower"), fld(w, "upper")
+    sl, su = fld(w, "lower_fn_sign"), fld(w, "upper_fn_sign")
     ok_hit = True
     # a: upper sign is 0, b: lower sign is 0.  (1, 1) is not a case: the loop exits only when the two end signs
     # differ (checked above as the loop condition), so they cannot both be 0 on exit.
